@@ -1,7 +1,7 @@
 #!/bin/bash
 # usage: seedrun.sh [seed-id ...]   (default: all)  re-runs the owning property's quick check against each stored seeded change
 cd /verif
-ids="$@"; [ -z "$ids" ] && ids=$(ls seeded)
+ids="$@"; [ -z "$ids" ] && ids=$(cd seeded && ls -d */ | tr -d /)
 for id in $ids; do
   prop=$(python3 -c "import json;print(json.load(open('seeded/$id/meta.json'))['property'])")
   git -C /repo apply /verif/seeded/$id/patch.diff || { echo "$id: patch does not apply"; continue; }
